@@ -12,7 +12,7 @@ TRUSTED = []
 FLOOR = {'quick': 300, 'thorough': 3000}
 BUDGET = {'quick': 90, 'thorough': 1200}
 N = {'quick': 1800, 'thorough': 20000}
-FAMILIES = [('chain', 10), ('indep', 30), ('d4', 36), ('multiex', 54), ('conjcons', 70)]
+FAMILIES = [('chain', 8), ('indep', 22), ('d4', 27), ('multiex', 45), ('conjcons', 75)]
 selftest = opcommon.selftest_birds
 
 
